@@ -29,9 +29,10 @@ public:
         _n = n;
         _i1 = (i1 < 0) ? (_n + i1) : (i1);
         _i2 = (i2 < 0) ? (_n + i2) : (i2);
-        const int d = std::abs(_i2 - _i1);
-        const int tm = std::abs(_m);
-        _nc = (d % tm != 0) ? (d / tm + 1) : (d / tm);
+        //64-bit arithmetic: the arguments are not range checked yet (i1, i2, m may be near INT_MIN)
+        const long long d = std::abs(static_cast<long long>(_i2) - static_cast<long long>(_i1));
+        const long long tm = std::abs(static_cast<long long>(_m));
+        _nc = static_cast<int>((d % tm != 0) ? (d / tm + 1) : (d / tm));
 
         if ((_i1 < 0) || (_i1 >= _n)) {
             DSPLIB_THROW("Left slice index out of range");
